@@ -270,11 +270,11 @@ class MPIExec(LaunchMethod):
 
             tmp = list()
             for slot in slots:
-                cores = slot['cores']
-                if len(cores) > 1:
-                    tmp.append('%s-%s' % (cores[0]['index'], cores[-1]['index']))
+                idx = [core['index'] for core in slot['cores']]
+                if len(idx) > 1 and idx == list(range(idx[0], idx[0] + len(idx))):
+                    tmp.append('%s-%s' % (idx[0], idx[-1]))
                 else:
-                    tmp.append(str(cores[0]['index']))
+                    tmp.append(','.join(str(i) for i in idx))
             core_ids = ':'.join(tmp)
 
           # # FIXME: make this readable please
